@@ -26,7 +26,13 @@ def correspondence(ctx):
     # Huffman literals in four streams at tiny sizes (fourth stream empty for 6 and 9 bytes), with and without a treeless second block
     cand += synth.huf4_small_frames(rng, 80 if ctx.quick() else 1500)
     r = frames.parallel(lambda ch: frames.model_lines(ch), frames.split_chunks(["dec %d %s" % (len(c) + 8, frames.hx(f)) for f, c in cand], 16))
-    valid = [(f, rr) for (f, c), rr in zip(cand, r) if rr.startswith("ok")]
+    # a synthesized frame is VALID only if it also obeys the window rule (a match may not reach further back than Window_Size once the block
+    # ends beyond it): the one-shot decoders and R regenerate such a frame from their full history, a streaming decoder with the ring buffer
+    # the header asks for legitimately cannot - those frames are not part of "every valid frame" (window rule of Conform, theorem window_sufficient)
+    okc = [(f, c) for (f, c), rr in zip(cand, r) if rr.startswith("ok") and int(rr.split()[1]) == len(c)]
+    wr = frames.parallel(lambda ch: frames.model_lines(ch), frames.split_chunks(["conform %s %s - 0 0 0" % (frames.hx(f), frames.hx(c)) for f, c in okc], 16))
+    beyond_window = {bytes(f) for (f, c), w_ in zip(okc, wr) if "violates window" in w_}
+    valid = [(f, rr) for (f, c), rr in zip(cand, r) if rr.startswith("ok") and bytes(f) not in beyond_window]
     synth_disagree = [(f, c, rr) for (f, c), rr in zip(cand, r) if rr.startswith("ok") and int(rr.split()[1]) != len(c)]
     # (b) compressor frames (no dict)
     lines, xs = [], []
@@ -120,7 +126,7 @@ def correspondence(ctx):
                      "(default asm/BMI2, HUF X1 + short sequence decoder, HUF X2 + long/prefetch sequence decoder%s) through one-shot (exact and roomy dst), streaming under segmentations, buffer-less, stable-output, in-place, "
                      "and DDict cold / warm / buffer-less; distinct = distinct frames > 16 bytes" % (len(variants), ", no-asm, ASan" if not ctx.quick() else ""),
                 samples=[dict(op=ops[0][:80], reference=want[0])], variants=variants, agreeing_results_per_variant=per_variant,
-                synthesized_valid=len([1 for (f, c), rr in zip(cand, r) if rr.startswith("ok")]), synthesized_total=len(cand), compressor_frames=len(cf), dictionary_frames=len(dmeta))
+                synthesized_valid=len([1 for (f, c), rr in zip(cand, r) if rr.startswith("ok")]), synthesized_total=len(cand), synthesized_beyond_window_excluded=len(beyond_window), compressor_frames=len(cf), dictionary_frames=len(dmeta))
 
 
 def replay(ctx, data):
